@@ -932,9 +932,7 @@ class ComposerBinary(ComposerBase):
 
     def compose_ssh_mpint(self, value):
         negative = value < 0
-        length = value.bit_length() // 32
-        if value.bit_length() % 32:
-            length += 1
+        length = (value.bit_length() + 8) // 32 + 1
 
         mpint_bytes = self._compose_mpint(value, length, self.byte_order)
 
